@@ -26,6 +26,7 @@ from . import core
 from .core import listlit
 from . import jugrun
 from . import exectrace as X
+from . import patching
 
 import jug
 import jug.task
@@ -149,15 +150,21 @@ def process_globals_per_thread():
             return real_signal(sig, handler)
         return None          # a thread cannot install a handler; the lock-step runs deliver stop requests themselves
 
-    jug.task.alltasks = TLList(old[0])
-    reg._hooks = TLDict(old[1])
-    reg._registered = TLSet(old[2])
-    signal.signal = thread_signal
-    jug.options.set_jugdir = lambda jugdir: Task.store
-    try:
-        yield
-    finally:
-        jug.task.alltasks, reg._hooks, reg._registered, signal.signal, jug.options.set_jugdir = old[:5]
+    with contextlib.ExitStack() as stack:
+        # every one of them also where jug holds it under another module's global (from X import name)
+        stack.enter_context(patching.patch_everywhere(old[0], TLList(old[0]), home=jug.task, name='alltasks'))
+        stack.enter_context(patching.patch_everywhere(old[1], TLDict(old[1]), home=reg, name='_hooks'))
+        stack.enter_context(patching.patch_everywhere(old[2], TLSet(old[2]), home=reg, name='_registered'))
+        stack.enter_context(patching.patch_everywhere(real_signal, thread_signal, home=signal, name='signal'))
+        stack.enter_context(patching.patch_everywhere(old[4], lambda jugdir: Task.store, home=jug.options, name='set_jugdir'))
+        try:
+            yield
+        finally:
+            _restore_process(old)
+
+
+def _restore_process(old):
+    if True:
         sys.path[:] = old[5]
         for m in list(sys.modules):
             if m not in old[6] and m.startswith('jugv_bjf_'):
@@ -546,6 +553,8 @@ class BBatch:
         ck.count('exec-barrier: %d workers' % sum(len(ph['workers']) for ph in sc['phases']))
         ck.count('exec-barrier: %d barrier/bvalue statements' % nb)
         ck.count('exec-barrier: events', len(res.trace))
+        if any('sleep' in ks for ks in res.kinds.values()):
+            ck.count('exec-barrier: runs in which a worker slept between reloads / in the wait loop')
         ck.count('exec-barrier: initial store %s' % ('empty' if not sc.get('prefill') else 'dependency-closed' if closed_prefill(sc) else 'with holes (an upstream result missing)'))
         ck.count('exec-barrier: reloads (jugfile loads beyond the first, all workers)',
                  sum(max(0, ks.count('build') - 1) for ks in res.kinds.values()))
@@ -685,6 +694,8 @@ def tie(ck):
         enumerate_small(ck, b, 'bv3', 2, 4000)
     else:
         enumerate_small(ck, b, 'b2', 2, 100)
+    X.require_coverage(ck, ['exec-barrier: runs in which a worker slept between reloads / in the wait loop',
+                            'exec-barrier: reloads (jugfile loads beyond the first, all workers)'], 'many workers x barrier phases')
     b.flush()
 
 
